@@ -81,6 +81,8 @@ fn main() {
 		"C15" => props::c15::run(&mut ctx),
 		"C14" => props::c14::run(&mut ctx),
 		#[cfg(not(feature = "nocrypto"))]
+		"C11" => props::c11::run(&mut ctx),
+		#[cfg(not(feature = "nocrypto"))]
 		"C06" => props::c06::run(&mut ctx),
 		#[cfg(not(feature = "nocrypto"))]
 		"C03" | "C17" => props::import::run(&mut ctx, &prop),
